@@ -40,16 +40,50 @@ def sensitivity(ctx):
     return res
 
 
-def scenarios(ctx, tier):
+def conformance(ctx, traces, results):
+    """implementation conformance: the hook events of the scenarios, recorded with the goroutine that emitted them, are
+    validated against ConnTrace.tla.  AtMostOneDisc / OwnClose violated on real events are property violations (the
+    DISCONNECTED dispatch and the socket a closer was started for are observable); any other rejection is DRIFT."""
+    import re, json
+    accepted = events = 0
+    for tr in traces:
+        if not os.path.exists(tr) or os.path.getsize(tr) == 0:
+            continue
+        n = sum(1 for _ in open(tr))
+        try:
+            ok, msg, r = ctx.validate_trace("ConnTrace.tla", "ConnTrace.cfg", tr, what="hook events of the lifecycle scenarios against ConnTrace.tla", timeout=240, dfs=True)
+        except common.Inconclusive as e:
+            ctx.drift.append("the hook trace could not be matched against ConnTrace.tla within the budget (%s)" % str(e)[:200])
+            continue
+        events += n
+        if ok:
+            accepted += sum(1 for l in open(tr) if '"reset"' in l)
+            continue
+        inv = r.violated()
+        if any("TraceInv" in v for v in inv):
+            rp = ctx.save_replay(tr, "conn-trace-%s.ndjson" % ctx.pid)
+            ctx.violation("conntrace/invariant", "on recorded hook events a connection generation got a second DISCONNECTED or was closed by a goroutine of another generation "
+                          "(AtMostOneDisc / OwnClose of Conn.tla violated): " + msg[:300], rp)
+        else:
+            ctx.drift.append("the code no longer follows ConnTrace.tla (the listed properties held on everything observed): " + msg[:300])
+    return accepted, events
+
+
+def scenarios(ctx, tier, trace_dir=None):
     """run the lifecycle scenario families; a crashed or tainted driver process is restarted after the scenario in flight"""
     results, start, rounds = [], 0, 0
     qcap = None
+    traces = []
     while True:
         rounds += 1
         if rounds > 400:
             raise common.Inconclusive("scenario driver keeps dying")
+        extra = []
+        if trace_dir:
+            traces.append(os.path.join(trace_dir, "trace-%d.ndjson" % rounds))
+            extra = ["-trace", traces[-1]]
         try:
-            rc, out = ctx.run_drv(["conn-life", "-tier", tier, "-seed", str(ctx.seed), "-from", str(start)], timeout=3600)
+            rc, out = ctx.run_drv(["conn-life", "-tier", tier, "-seed", str(ctx.seed), "-from", str(start)] + extra, timeout=3600)
         except subprocess.TimeoutExpired:
             raise common.Inconclusive("scenario driver timed out")
         begun = None
@@ -76,7 +110,7 @@ def scenarios(ctx, tier):
             start = begun["id"] + 1
             continue
         raise common.Inconclusive("scenario driver failed (rc=%s): %s" % (rc, out[-2000:]))
-    return results, qcap
+    return results, qcap, traces
 
 
 def key_of(sc):
@@ -104,11 +138,15 @@ def run_lifecycle(ctx, props, what):
     model_check(ctx, QUICK_CFGS[ctx.pid] if ctx.quick() else THOROUGH_CFGS)
     sens = sensitivity(ctx) if (ctx.pid == "C07" or not ctx.quick()) else {}
     tier = "quick" if ctx.quick() else "thorough"
-    results, qcap = scenarios(ctx, tier)
+    results, qcap, traces = scenarios(ctx, tier, ctx.subdir("conn-traces"))
     skipped = [r for r in results if r.get("skipped")]
     if len(skipped) > len(results) // 4:
         raise common.Inconclusive("too many scenarios could not be set up: %s" % skipped[:3])
-    collect(ctx, results, props)
+    nviol = collect(ctx, results, props)
+    acc, nev = (0, 0)
+    if nviol == 0 and not any(r.get("problems") for r in results):
+        acc, nev = conformance(ctx, traces, results)
+    ctx.traces_validated = acc
     classes = sorted({key_of(r["scenario"]) for r in results})
     ctx.samples = [r["scenario"] for r in results[:1]] + [r["scenario"] for r in results if r["scenario"]["reconnect"] != "none"][:1] + \
                   [r["scenario"] for r in results if r["scenario"]["out"] > 64][:1]
@@ -119,7 +157,8 @@ def run_lifecycle(ctx, props, what):
            "rule": "one evaluation = one lifecycle scenario run on the real client (inbound/outbound backlog in units of the real queue capacity x handler state x cause(s) x "
                    "configuration x reconnect origin); distinct = distinct scenario classes (backlog class, who sends, handler state, causes, flood, reconnect, refused-connect)",
            "scenario_classes": len(classes), "queue_capacity": qcap, "scenarios_skipped": len(skipped),
-           "defect_variants_detected_by_tlc": sens, "what": what}
+           "defect_variants_detected_by_tlc": sens, "what": what,
+           "hook_events_recorded": nev, "scenarios_accepted_by_ConnTrace": acc}
     return common.finish(ctx, "model_checking", cov)
 
 
